@@ -477,6 +477,8 @@ func checkAtoms(at []atom, kind string, newVal, cell, keyV, valLen ssa.Value, m 
 			nOld++
 		case a.kind == "old":
 			return false, "the old estimate is subtracted"
+		case zeroLength(a.of):
+			// len(nil), len of a variable that is never assigned: adds or subtracts nothing
 		case a.sign > 0:
 			plus = append(plus, a.of)
 		default:
@@ -588,4 +590,49 @@ func ruleMemLookup(r *Report, fn *ssa.Function) {
 			r.Bad(rule, key, g.Pos(), fmt.Sprintf("the lookup result is classified by %v instead of exactly skiplist.NotFound", sents))
 		}
 	}
+}
+
+// zeroLength: v is a slice whose length is zero whatever the input — the nil constant, or the content of a local variable
+// that nothing is ever stored into (`var tombstone []byte`).
+func zeroLength(v ssa.Value) bool {
+	if v == nil {
+		return false
+	}
+	if isNilConst(v) {
+		return true
+	}
+	u, ok := v.(*ssa.UnOp)
+	if !ok || u.Op != token.MUL {
+		return false
+	}
+	al, ok := u.X.(*ssa.Alloc)
+	if !ok {
+		if ph, isPhi := u.X.(*ssa.Phi); isPhi && len(ph.Edges) == 1 {
+			al, ok = ph.Edges[0].(*ssa.Alloc)
+		}
+		if !ok {
+			return false
+		}
+	}
+	rr := al.Referrers()
+	if rr == nil {
+		return false
+	}
+	for _, rf := range *rr {
+		switch x := rf.(type) {
+		case *ssa.UnOp:
+			if x.Op != token.MUL {
+				return false
+			}
+		case *ssa.Store:
+			if x.Addr == ssa.Value(al) {
+				return false
+			}
+			// the address is stored somewhere (into the inserted struct): writes through that alias come later
+		case *ssa.DebugRef, *ssa.Phi:
+		default:
+			return false
+		}
+	}
+	return true
 }
